@@ -12,13 +12,18 @@ var dirs3 = []string{"restart", "stop", "resume"}
 // Generate draws a random scenario: an actor tree of 2..6 tokens (token 0 = root, spawned externally),
 // one role per token, and a list of external actions.
 // template scenarios aimed at situations that uniform generation reaches rarely
-func template(r *vh.RNG) *Scenario {
+const NTemplates = 13
+
+func template(r *vh.RNG) *Scenario { return TemplateAt(r, r.Intn(NTemplates)) }
+
+// TemplateAt builds template k (0 <= k < NTemplates; the last one is the default branch)
+func TemplateAt(r *vh.RNG, k int) *Scenario {
 	scn := &Scenario{Mailbox: "LockFree", Final: r.Bool(), Sentinel: -1}
 	if r.Bool() {
 		scn.Mailbox = "GlobalOrderedLockFree"
 	}
 	tell := func(t, n int) Label { return Label{K: "tell", T: t, N: n} }
-	switch r.Intn(10) {
+	switch k {
 	case 0:
 		// all-for-one: the root restarts ALL its children when A (token 1) fails; B (token 2) is healthy, has a child
 		// (token 3) and traffic in flight while it waits for that child during its restart
@@ -129,6 +134,27 @@ func template(r *vh.RNG) *Scenario {
 		if r.Bool() {
 			scn.Exts = scn.Exts[:5] // straight to Shutdown with the re-created child alive
 		}
+	case 10:
+		// a start handler REPORTS a failure and returns normally (so the accident bookkeeping of a completed launch runs right
+		// after it), and the decision is Resume — by the actor's own strategy, or by the parent's: the Resume must still take
+		// effect, the user messages queued meanwhile are handled by the same instance
+		child := Role{Victim: "resume", Rules: []Rule{{On: "L", N: -1, Inst: -1, Do: []Action{{K: "report"}}},
+			{On: "P", N: 1, Inst: -1, Do: []Action{{K: "tell", T: 0, N: 2}}}}}
+		parent := Role{Victim: "resume", Sup: []string{"stop"}, Rules: []Rule{{On: "L", N: -1, Inst: -1, Do: []Action{{K: "spawn", T: 1, R: 1}}}}}
+		if r.Bool() {
+			child.Victim, parent.Sup = "", []string{"resume", "resume"}
+		}
+		scn.Roles = []Role{parent, child}
+		scn.Exts = []Label{{K: "spawn", T: 0, R: 0}, tell(1, 0), tell(1, 1), tell(1, 2), tell(0, 1), tell(1, 1)}
+	case 11:
+		// a supervisor that decides by its OWN implemented strategy is itself restarted (its children are stopped and re-created
+		// by the new instance); a child of the new instance then fails: the decision is the new instance's
+		scn.Roles = []Role{
+			{Victim: "restart", Sup: []string{"resume", dirs3[r.Intn(3)]}, Rules: []Rule{{On: "L", N: -1, Inst: -1, Do: []Action{{K: "spawn", T: 1, R: 1}}},
+				{On: "P", N: 0, Inst: 0, Do: []Action{{K: "panic"}}}}},
+			{Rules: []Rule{{On: "P", N: 0, Inst: -1, Do: []Action{{K: []string{"panic", "report"}[r.Intn(2)]}}}, {On: "P", N: 1, Inst: -1, Do: []Action{{K: "tell", T: 0, N: 2}}}}},
+		}
+		scn.Exts = []Label{{K: "spawn", T: 0, R: 0}, tell(0, 0), tell(1, 1), tell(1, 0), tell(1, 1), tell(0, 1), tell(1, 0)}
 	default:
 		// watch requests racing with a termination: two observers, one of them the parent
 		scn.Roles = []Role{
